@@ -416,15 +416,27 @@ func hugeSharedC19(w *World, st *Stats, r *Rng, tier string, seed uint64) {
 		name string
 		f    func() int64
 	}{
-		{"SignedAsSigned", func() int64 { return hugeShared(signal.SignedAsSigned[int32, int16], func(i int) int32 { return int32(i%200-100) * 70000 }) }},
-		{"SignedAsFloat", func() int64 { return hugeShared(signal.SignedAsFloat[int16, float32], func(i int) int16 { return int16(i%200-100) * 300 }) }},
+		{"SignedAsSigned", func() int64 {
+			return hugeShared(signal.SignedAsSigned[int32, int16], func(i int) int32 { return int32(i%200-100) * 70000 })
+		}},
+		{"SignedAsFloat", func() int64 {
+			return hugeShared(signal.SignedAsFloat[int16, float32], func(i int) int16 { return int16(i%200-100) * 300 })
+		}},
 		{"FloatAsSigned", func() int64 { return hugeShared(signal.FloatAsSigned[float32, int16], fl) }},
-		{"UnsignedAsUnsigned", func() int64 { return hugeShared(signal.UnsignedAsUnsigned[uint16, uint8], func(i int) uint16 { return uint16(i * 7) }) }},
-		{"SignedAsUnsigned", func() int64 { return hugeShared(signal.SignedAsUnsigned[int16, uint8], func(i int) int16 { return int16(i * 5) }) }},
-		{"UnsignedAsSigned", func() int64 { return hugeShared(signal.UnsignedAsSigned[uint8, int16], func(i int) uint8 { return uint8(i) }) }},
+		{"UnsignedAsUnsigned", func() int64 {
+			return hugeShared(signal.UnsignedAsUnsigned[uint16, uint8], func(i int) uint16 { return uint16(i * 7) })
+		}},
+		{"SignedAsUnsigned", func() int64 {
+			return hugeShared(signal.SignedAsUnsigned[int16, uint8], func(i int) int16 { return int16(i * 5) })
+		}},
+		{"UnsignedAsSigned", func() int64 {
+			return hugeShared(signal.UnsignedAsSigned[uint8, int16], func(i int) uint8 { return uint8(i) })
+		}},
 		{"FloatAsFloat", func() int64 { return hugeShared(signal.FloatAsFloat[float32, float64], fl) }},
 		{"FloatAsUnsigned", func() int64 { return hugeShared(signal.FloatAsUnsigned[float32, uint8], fl) }},
-		{"UnsignedAsFloat", func() int64 { return hugeShared(signal.UnsignedAsFloat[uint8, float32], func(i int) uint8 { return uint8(i) }) }},
+		{"UnsignedAsFloat", func() int64 {
+			return hugeShared(signal.UnsignedAsFloat[uint8, float32], func(i int) uint8 { return uint8(i) })
+		}},
 	}
 	for i, x := range runs {
 		if tier != "thorough" && (i+int(seed))%3 != 0 {
